@@ -18,9 +18,61 @@ ASSUMPTIONS = ['rewrites are applied by the IR renderer (generated programs) or 
 REQUIRED_COUNTERS = ['variants_compared', 'variants_textually_different']
 
 
+_SIMPLE = re.compile(r'^\s*(?:(LET)\s+)?([A-Za-z][\w.]*[%&!#$]?(?:\([^()"]*\))?)\s*=(?!=)[^"\':]*(?:"[^"]*"[^"\':]*)*$|^\s*PRINT\b[^"\':]*(?:"[^"]*"[^"\':]*)*$', re.I)
+_KEYWORD_START = re.compile(r'^\s*(IF|FOR|NEXT|WHILE|WEND|DO|LOOP|SELECT|CASE|END|SUB|FUNCTION|DIM|CONST|TYPE|DATA|REM|DECLARE|DEF|ON|GOTO|GOSUB|RETURN|'
+                            r'RESUME|STATIC|SHARED|ELSE|ELSEIF|EXIT|CALL|READ|RESTORE|INPUT|LOCATE|COLOR|CLS)\b', re.I)
+
+
+def split_colons(line):
+    """Parts of a line separated by ':' outside string literals, or None when the line is no plain statement list."""
+    if "'" in line or re.search(r'\b(if|then|else|rem|data)\b', line, re.I):
+        return None
+    parts, cur, inq = [], '', False
+    for ch in line:
+        if ch == '"':
+            inq = not inq
+        if ch == ':' and not inq:
+            parts.append(cur)
+            cur = ''
+        else:
+            cur += ch
+    parts.append(cur)
+    if len(parts) < 2 or not all(_SIMPLE.match(p_) and not _KEYWORD_START.match(p_) for p_ in parts):
+        return None
+    return parts
+
+
+def restructure(text, r):
+    """Statement-level rewrites on plain text: split 'a : b' onto lines, join consecutive simple statements, add/remove LET."""
+    lines = text.split('\n')
+    out = []
+    for line in lines:
+        parts = split_colons(line)
+        if parts is not None and r.random() < 0.6:
+            out.extend(p_.strip() for p_ in parts)
+        else:
+            out.append(line)
+    lines, out = out, []
+    for line in lines:
+        m = _SIMPLE.match(line) if (':' not in line and "'" not in line and not _KEYWORD_START.match(line)) else None
+        if m and m.group(2) and r.random() < 0.3:
+            if m.group(1):
+                line = re.sub(r'^(\s*)LET\s+', r'\1', line, flags=re.I)
+            else:
+                line = re.sub(r'^(\s*)', r'\1LET ', line)
+        prev = out[-1] if out else None
+        if (m and prev is not None and ':' not in prev and "'" not in prev and _SIMPLE.match(prev) and not _KEYWORD_START.match(prev)
+                and not prev.rstrip().endswith((';', ',')) and r.random() < 0.3):
+            out[-1] = prev.rstrip() + ' : ' + line.strip()
+        else:
+            out.append(line)
+    return '\n'.join(out)
+
+
 def rewrite_text(text, r):
     """Conservative neutral rewrite of arbitrary source text (used for repo snippets)."""
     out = []
+    text = restructure(text, r)
     for line in text.split('\n'):
         md = re.fullmatch(r'(\s*(?:\w+:\s*|\d+\s+)?)(data)(\s+)([^"\':]*)', line, re.I)
         if md:
@@ -162,7 +214,7 @@ def run_case(case):
             vt, _ = render.render(meta['prog'], st)
             variants.append((vt, rules))
         else:
-            variants.append((rewrite_text(text, r), ['text-case', 'comments', 'blank']))
+            variants.append((rewrite_text(text, r), ['text-case', 'comments', 'blank', 'text-split-join', 'text-let']))
     st = {'variants_compared': 0, 'variants_textually_different': 0, 'sections_equal': 0,
           'sections_differ_behaviour_equal': 0, 'rejected_both': 0, 'rules_used': []}
     viol = []
